@@ -179,7 +179,7 @@ def maze_jobs(rng, n, sizes, events=False):
         _, _, (ox, sx) = rng.choice(COORD_SYSTEMS)
         snapS, snapG = (int(rng.random() < 0.25), int(rng.random() < 0.25))
         if snapS or snapG:        # nearest-in-pixel-space = nearest-in-coordinate-space only for square cells
-            sx = abs(sy)
+            sx = abs(sy) if sx > 0 else -abs(sy)
         fy, fx = fine_axis(oy, sy), fine_axis(ox, sx)      # 0.3 * step is an integer numerator
 
         def pt(cell):
